@@ -92,7 +92,7 @@ BAD_TARGETS = [b'/#frag', b'noslash', b'*', b'/a b', b'http://[::1/', b'/%zz', b
                b'/\\x80', b'/%00', b'/echo?' + b'k=v&' * 40, b'/echo;\\x00p=1', b'/echo;p=\x00', b'/echo;a\\nb']
 ESCAPES = [b'\\x', b'\\u12', b'\\N{x}', b'abc\\', b'\\U00110000', b'\\r\\nInjected: 1', b'\\x00', b'\\ud800', b'\\777', b'\\u20ac',
            b'\\N{BULLET}', b'\\xff', b'\\', b'\\U0001F600', b'\\x0', b'\\u']
-BAD_HNAMES = [b'Bad Name', b'B(d', b'', b'\x01x', b'\xffx', b'X@Y', b'X\x7f', b' Lead', b'X\tY', b'"Q"', b'X\\x41', b'X\\udfffFoo', b'\\ud800', b'X\\u20ac']
+BAD_HNAMES = [b'Bad Name', b'B(d', b'', b'\x01x', b'\xffx', b'X@Y', b'X\x7f', b' Lead', b'X\tY', b'"Q"', b'X\\x41', b'X\\udfffFoo', b'\\ud800', b'X\\u20ac', b'\xdfontent-Length', b'X\xdf', b'\xb5x', b'Tran\xdffer-Encoding']
 BAD_HOSTS = [b'a:xyz', b'[::1]:80', b':80', b'a:', b'a:-1', b'a:99999999', b'', b'a b', b'\xff', b'a:80:90', b'a/../b', b'a:8\\x30',
              b'a:\\u0663', b'[::1', b'a:+80', b'a: 80', b'a:8_0', b'\\u20ac.org']
 BAD_CL = [b'abc', b'-5', b'+5', b'5, 5', b'1e3', b'99999999999999999999', b'0x10', b'', b' ', b'5 5', b'\\u0663', b'5\\x00', b'05', b'-0',
